@@ -1,6 +1,345 @@
-import BiomModel.Codec
+/-
+  C01 — HDF5 (BIOM 2.x) write/read round trip is lossless.
+
+  `fromH5` transcribes `Table.from_hdf5` WITHOUT subsetting (ids=None; the subset paths belong to
+  C14): header attributes, `axis_load` (IDs decoded as utf-8, per-category parsers `general_parser`
+  / `vlen_list_of_str_parser`, `@@SLASH@@` undone, `md if any(md) else None`, group metadata
+  payload), the matrix taken from the requested axis' group and handed to scipy.
+  `load` adds the sniffing preludes of `parse_biom_table` and `load_table`.
+  `C01.holds` states the property on what a loader returned vs. the table that was written.
+  The writer `toH5` and the tree live in BiomModel/C04.lean.
+-/
+import BiomModel.C04
 open Lean
+
+namespace Biom.Hdf5
+
+/-- what a loader returns, as far as the property looks at it -/
+structure Loaded (α δ : Type) where
+  obs : List Id
+  samp : List Id
+  rows : List (List α)
+  omd : Option (List (MdE α))
+  smd : Option (List (MdE α))
+  ttype : Option String
+  tableId : String
+  generatedBy : String
+  createDate : DateVal δ
+  /-- group metadata: key ↦ `ensure_utf8(val[0])` (`none` when the stored entry is not bytes) -/
+  ogmd : List (String × Option String)
+  sgmd : List (String × Option String)
+  deriving Repr, DecidableEq
+
+def Loaded.ids (t : Loaded α δ) : Axis → List Id
+  | .obs => t.obs
+  | .samp => t.samp
+def Loaded.md (t : Loaded α δ) : Axis → Option (List (MdE α))
+  | .obs => t.omd
+  | .samp => t.smd
+def Loaded.gmd (t : Loaded α δ) : Axis → List (String × Option String)
+  | .obs => t.ogmd
+  | .samp => t.sgmd
+
+/-- `general_parser(x)`: bytes are decoded, anything else is handed back as it is.  A 2-D row
+comes back as an array of byte strings (shown decoded, padding included, by the harness). -/
+def generalParse (c : Utf8) : Row α → Except Err (MdVal α)
+  | .scalar (.s x) => do pure (.text (← c.dec x))
+  | .scalar (.i n) => .ok (.int n)
+  | .scalar (.f a) => .ok (.float a)
+  | .scalar (.b v) => .ok (.bool v)
+  | .vec cells => do pure (.list (← cells.mapM (cellStr c)))
+
+/-- `vlen_list_of_str_parser(value)`: padding dropped, the rest decoded; nothing left ⇒ `None`.
+(Iterating a scalar entry is not reachable from a written file and is not modelled.) -/
+def listParse [DecidableEq α] (c : Utf8) : Row α → Except Err (MdVal α)
+  | .vec cells => do
+      let l ← (cells.filter (fun x => x != .s c.empty)).mapM (cellStr c)
+      pure (if l.isEmpty then .none else .list l)
+  | .scalar _ => .error .other
+
+def parserFor [DecidableEq α] (c : Utf8) (cat : String) : Row α → Except Err (MdVal α) :=
+  if isSpecial cat then listParse c else generalParse c
+
+/-- `md_dict[category] = value` -/
+def setKey (e : MdE α) (k : String) (v : MdVal α) : MdE α :=
+  if e.any (fun kv => kv.1 == k) then e.map (fun kv => if kv.1 == k then (k, v) else kv)
+  else e ++ [(k, v)]
+
+/-- `for md_dict, data_row in zip(md, data): md_dict[category] = parse_f(data_row)` -/
+def zipUpd (k : String) : List (MdE α) → List (MdVal α) → List (MdE α)
+  | e :: es, v :: vs => setKey e k v :: zipUpd k es vs
+  | es, _ => es
+
+def loadCategory [DecidableEq α] (c : Utf8) (md : List (MdE α)) (nd : String × DSet α) :
+    Except Err (List (MdE α)) := do
+  let cat := unsanitize nd.1
+  match nd.2.data.rowsOf with
+  | none => .error .other
+  | some rows =>
+    let vals ← rows.mapM (parserFor c cat)
+    pure (zipUpd cat md vals)
+
+def idOfCell (c : Utf8) : Cell α → Except Err String
+  | .s x => c.dec x
+  | _ => .error .other           -- non-bytes IDs are kept as they are by the code; not modelled
+
+def loadGmd (c : Utf8) (nd : String × DSet α) : Except Err (String × Option String) :=
+  match nd.2.data with
+  | .d1 (.s x :: _) => do pure (nd.1, some (← c.dec x))
+  | .d1 (_ :: _) => .ok (nd.1, none)
+  | .d1 [] => .error .index
+  | _ => .error .other
+
+/-- `axis_load(grp)` -/
+def axisLoad [DecidableEq α] (c : Utf8) (g : AxGrp α) :
+    Except Err (List Id × Option (List (MdE α)) × List (String × Option String)) := do
+  let idsDs ← reqE g.ids
+  let ids ← match idsDs.data with
+    | .d1 cells => cells.mapM (idOfCell c)
+    | _ => .error .other
+  let mdDs ← reqE g.md
+  let md ← mdDs.foldlM (loadCategory c) (List.replicate ids.length [])
+  let md' := if md.any (fun e => !e.isEmpty) then some md else none
+  let gds ← reqE g.gmd
+  let gmd ← gds.mapM (loadGmd c)
+  pure (ids, md', gmd)
+
+def loadNat : Cell α → Except Err Nat
+  | .i n => if 0 ≤ n then .ok n.toNat else .error .value
+  | _ => .error .type
+
+/-- the three arrays of `h5grp[axis]['matrix']` as scipy receives them -/
+def loadView (major minor : Nat) (g : Option (MatGrp α)) : Except Err (CS α) := do
+  let g ← reqE g
+  let arr (d : Option (DSet α)) : Except Err (List (Cell α)) := do
+    let d ← reqE d
+    match d.data with
+    | .d1 cells => .ok cells
+    | _ => .error .value
+  let data ← (← arr g.data).mapM cellVal
+  let indices ← (← arr g.indices).mapM loadNat
+  let indptr ← (← arr g.indptr).mapM loadNat
+  pure { nMajor := major, nMinor := minor, indptr := indptr, indices := indices, data := data }
+
+/-- `Table.from_hdf5(h5grp, axis=ax)` (ids=None).  scipy's constructor refuses arrays that do not
+describe a `shape` matrix (ValueError); `Table(...)` refuses ID counts that differ from the shape. -/
+def fromH5 [Zero α] [DecidableEq α] (c : Utf8) (dc : DateC δ) (h : H5 α) (ax : Axis) :
+    Except Err (Loaded α δ) := do
+  let id ← attrStr h "id"
+  let cd ← attrStr h "creation-date"
+  let gb ← attrStr h "generated-by"
+  let createDate : DateVal δ := match dc.parse cd with
+    | some d => .date d
+    | none => .text cd
+  let (n, m) ← attrShape h
+  let ty ← attrStr h "type"
+  let ttype := if ty = "" then none else some ty
+  let og ← reqE h.obs
+  let (obs, omd, ogmd) ← axisLoad c og
+  let sg ← reqE h.samp
+  let (samp, smd, sgmd) ← axisLoad c sg
+  let g ← reqE (h.ax ax)
+  let rows ← match ax with
+    | .obs => do
+        let cs ← loadView n m g.matrix
+        if cs.wfb then pure cs.toDense else .error .value
+    | .samp => do
+        let cs ← loadView m n g.matrix
+        if cs.wfb then pure (transposeGrid n cs.toDense) else .error .value
+  if obs.length = n ∧ samp.length = m then
+    pure { obs := obs, samp := samp, rows := rows, omd := omd, smd := smd, ttype := ttype, tableId := id,
+           generatedBy := gb, createDate := createDate, ogmd := ogmd, sgmd := sgmd }
+  else .error .tableException
+
+/-! ### the loaders -/
+
+inductive Loader where
+  | fromHdf5 | parseTable | loadTable
+  deriving Repr, DecidableEq
+
+/-- what `biom_open` finds out about the path: size 0?  gzip magic?  `h5py.is_hdf5`? -/
+structure Sniff where
+  empty : Bool
+  gzip : Bool
+  hdf5 : Bool
+  deriving Repr, DecidableEq
+
+def Sniff.written : Sniff := { empty := false, gzip := false, hdf5 := true }
+
+/-- `parse_biom_table(handle)`: HDF5 first; a ValueError is swallowed and the JSON attempt on an
+h5py handle then ends in `json.loads(<File>)`, a TypeError. -/
+def parseBiomTable [Zero α] [DecidableEq α] (c : Utf8) (dc : DateC δ) (h : H5 α) : Except Err (Loaded α δ) :=
+  match fromH5 c dc h .samp with
+  | .ok t => .ok t
+  | .error .value => .error .type
+  | .error e => .error e
+
+/-- `load_table(path)`: `biom_open` sniffs, `parse_biom_table` parses, IndexError / TypeError become
+"does not appear to be a BIOM file" (TypeError).  Text inputs are not part of this model. -/
+def loadTable [Zero α] [DecidableEq α] (c : Utf8) (dc : DateC δ) (s : Sniff) (h : H5 α) : Except Err (Loaded α δ) :=
+  if s.empty then .error .value
+  else if s.gzip || !s.hdf5 then .error .other
+  else
+    match parseBiomTable c dc h with
+    | .ok t => .ok t
+    | .error .index => .error .type
+    | .error e => .error e
+
+def load [Zero α] [DecidableEq α] (c : Utf8) (dc : DateC δ) (s : Sniff) (l : Loader) (h : H5 α) :
+    Except Err (Loaded α δ) :=
+  match l with
+  | .fromHdf5 => fromH5 c dc h .samp
+  | .parseTable => parseBiomTable c dc h
+  | .loadTable => loadTable c dc s h
+
+end Biom.Hdf5
+
+/-! ### the property -/
 namespace Biom.C01
-/-- stub: not built yet -/
-def handle (_req : Json) : Codec.R Json := .error "C01: model not built yet"
+open Biom.Hdf5
+
+variable {α δ : Type}
+
+/-- metadata entry of an ID (`{}` when the axis has no metadata) -/
+def entryOf (ids : List Id) (md : Option (List (MdE α))) (id : Id) : MdE α :=
+  ((md.bind (fun m => lookupBy ids m id))).getD []
+
+/-- same categories, same value in each (key order irrelevant) -/
+def entryEq [DecidableEq α] (a b : MdE α) : Bool :=
+  a.length == b.length && a.all (fun kv => b.lookup kv.1 == some kv.2)
+
+def cellOf (obs samp : List Id) (rows : List (List α)) (o s : Id) : Option α :=
+  (lookupBy obs rows o).bind (fun r => lookupBy samp r s)
+
+def mdClause [DecidableEq α] (ids : List Id) (a b : Option (List (MdE α))) : Bool :=
+  ids.all (fun id => entryEq (entryOf ids a id) (entryOf ids b id))
+
+def gmdClause (a : List (String × String × String)) (b : List (String × Option String)) : Bool :=
+  a.length == b.length && a.all (fun kv => b.lookup kv.1 == some (some kv.2.2))
+
+/-- The clauses of the property, on a loader's result `r` for the table `t` written with
+`generated_by = genBy` and (when supplied) `creation_date = date`. -/
+def clauses [DecidableEq α] [DecidableEq δ] (t : Src α) (genBy : String) (date : Option δ)
+    (r : Except Err (Loaded α δ)) : List (String × Bool) :=
+  match r with
+  | .error _ => [("no-error", false)]
+  | .ok l =>
+    [("observation-ids", l.obs == t.obs),
+     ("sample-ids", l.samp == t.samp),
+     ("shape", l.rows.length == t.obs.length && l.rows.all (fun r => r.length == t.samp.length)),
+     ("values", t.obs.all (fun o => t.samp.all (fun s => cellOf l.obs l.samp l.rows o s == cellOf t.obs t.samp t.rows o s))),
+     ("observation-metadata", mdClause t.obs t.omd l.omd),
+     ("sample-metadata", mdClause t.samp t.smd l.smd),
+     ("type", l.ttype == t.ttype),
+     ("id", l.tableId == (match t.tableId with | some s => s | none => "No Table ID")),
+     ("generated-by", l.generatedBy == genBy),
+     ("creation-date", match date with | some d => l.createDate == .date d | none => true),
+     ("observation-group-metadata", gmdClause t.ogmd l.ogmd),
+     ("sample-group-metadata", gmdClause t.sgmd l.sgmd)]
+
+def holds [DecidableEq α] [DecidableEq δ] (t : Src α) (genBy : String) (date : Option δ)
+    (r : Except Err (Loaded α δ)) : Bool :=
+  (clauses t genBy date r).all (·.2)
+
+/-! ### JSON glue -/
+open Codec Biom.C04
+
+def mdValToJson : MdVal Rat → Json
+  | .text s => Json.mkObj [("t", "text"), ("v", .str s)]
+  | .int i => Json.mkObj [("t", "int"), ("v", .str (toString i))]
+  | .float a => Json.mkObj [("t", "float"), ("v", ratToJson a)]
+  | .bool b => Json.mkObj [("t", "bool"), ("v", .bool b)]
+  | .list l => Json.mkObj [("t", "list"), ("v", strsToJson l)]
+  | .none => Json.mkObj [("t", "none")]
+
+/-- entries become JSON objects: key order is not compared -/
+def mdToJson (md : Option (List (MdE Rat))) : Json :=
+  optToJson (fun m => .arr (m.map (fun e => Json.mkObj (e.map (fun kv => (kv.1, mdValToJson kv.2))))).toArray) md
+
+def gmdToJson (g : List (String × Option String)) : Json :=
+  Json.mkObj (g.map (fun kv => (kv.1, optToJson Json.str kv.2)))
+
+def dateToJson : DateVal String → Json
+  | .date d => Json.mkObj [("date", .str d)]
+  | .text s => Json.mkObj [("text", .str s)]
+
+def loadedToJson (l : Loaded Rat String) : Json :=
+  Json.mkObj [("obs", strsToJson l.obs), ("samp", strsToJson l.samp), ("rows", gridToJson l.rows),
+    ("omd", mdToJson l.omd), ("smd", mdToJson l.smd), ("type", optToJson Json.str l.ttype),
+    ("table_id", .str l.tableId), ("generated_by", .str l.generatedBy), ("create_date", dateToJson l.createDate),
+    ("ogmd", gmdToJson l.ogmd), ("sgmd", gmdToJson l.sgmd)]
+
+def asGmdL (j : Json) : R (String × Option String) := do
+  match (← asArr j) with
+  | [k, v] => pure ((← asStr k), (← asOpt asStr v))
+  | _ => .error "group metadata pair expected"
+
+def asDate (j : Json) : R (DateVal String) :=
+  match optFld j "date" with
+  | some d => do pure (.date (← asStr d))
+  | none => do pure (.text (← strF j "text"))
+
+def asLoaded (j : Json) : R (Loaded Rat String) := do
+  pure { obs := (← listF asStr j "obs"), samp := (← listF asStr j "samp"),
+         rows := (← listF (asList asRat) j "rows"),
+         omd := (← optF (asList asMdE) j "omd"), smd := (← optF (asList asMdE) j "smd"),
+         ttype := (← optF asStr j "type"), tableId := (← strF j "table_id"),
+         generatedBy := (← strF j "generated_by"), createDate := (← asDate (← fld j "create_date")),
+         ogmd := (← listF asGmdL j "ogmd"), sgmd := (← listF asGmdL j "sgmd") }
+
+def asResult (j : Json) : R (Except Err (Loaded Rat String)) :=
+  match optFld j "error" with
+  | some e => do pure (.error (asErr (← asStr e)))
+  | none => do pure (.ok (← asLoaded (← fld j "ok")))
+
+def resultToJson (r : Except Err (Loaded Rat String)) : Json := exceptToJson loadedToJson r
+
+def asLoader (s : String) : R Loader :=
+  match s with
+  | "from_hdf5" => pure .fromHdf5
+  | "parse_table" => pure .parseTable
+  | "load_table" => pure .loadTable
+  | _ => .error s!"bad loader {s}"
+
+def asAxisD (j : Json) (k : String) : R Axis :=
+  match optFld j k with
+  | some v => asAxis v
+  | none => pure .samp
+
+/-- request {"src", "generated_by", "date", "now", "csr", "csc", "raw"?, "loader", "axis", "sniff", "obs": result}
+    → holds/clause on the loader's result; the model result `load (toH5 …)`; agreement; and, when the
+    raw tree is given, `load` applied to the RAW tree as a second model result. -/
+def handle (req : Json) : R Json := do
+  let src ← asSrc (← fld req "src")
+  let genBy ← strF req "generated_by"
+  let date ← optF asStr req "date"
+  let now ← strFD req "now" ""
+  let csr ← asCS (← fld req "csr")
+  let csc ← asCS (← fld req "csc")
+  let loader ← asLoader (← strF req "loader")
+  let ax ← asAxisD req "axis"
+  let sn : Sniff := match optFld req "sniff" with
+    | some s => { empty := (boolFD s "empty" false).toOption.getD false, gzip := (boolFD s "gzip" false).toOption.getD false,
+                  hdf5 := (boolFD s "hdf5" true).toOption.getD true }
+    | none => Sniff.written
+  let obs ← asResult (← fld req "obs")
+  let v := firstFailing (C01.clauses src genBy date obs)
+  let run (h : H5 Rat) : Except Err (Loaded Rat String) :=
+    match loader, ax with
+    | .fromHdf5, a => fromH5 Utf8.ident DateC.ident h a
+    | l, _ => load Utf8.ident DateC.ident sn l h
+  let model : Except Err (Loaded Rat String) :=
+    match toH5 Utf8.ident DateC.ident src genBy date now csr csc with
+    | .ok h => run h
+    | .error e => .error e
+  let mj := resultToJson model
+  let oj := resultToJson obs
+  let rawAgree : Bool ← match optFld req "raw" with
+    | some rj => do
+        let raw ← asH5 rj
+        pure ((resultToJson (run raw)).compress == oj.compress)
+    | none => pure true
+  pure (Json.mkObj (verdictToJson v ++ [("agree", .bool (mj.compress == oj.compress)),
+    ("raw_agree", .bool rawAgree), ("model_holds", .bool (C01.holds src genBy date model)), ("model", mj)]))
+
 end Biom.C01
